@@ -508,10 +508,11 @@ def check_join_keys(case, acc):
         if case.get('variant', k) != k:
             continue
         args = join_args(build_table(lrows), build_table(rrows), le, re_, variables, flag)
+        label = f'dataJoin(l, r, {args[2:]})'     # before the call: the argument list is completed in place by the callee
         ok, res = call(acc, 'dataJoin', args)
         blocks = rd.ref_join(left, right, le, re_, variables)
         acc.traces += 1
-        c2 = dict(case, variant=k, op=f'dataJoin(l, r, {args[2:]})', left_table=left, right_table=right)
+        c2 = dict(case, variant=k, op=label, left_table=left, right_table=right)
         if not ok:
             acc.violation(c2, canon_flat(rd.join_flatten(blocks, False)), res, 'dataJoin raised')
             continue
@@ -582,10 +583,11 @@ def check_join_names(case, acc):
         if case.get('variant', k) != k:
             continue
         args = join_args(build_named('L', lrows), build_named('R', rrows), e, None, None, flag)
+        label = f'dataJoin(l, r, {args[2:]})'
         ok, res = call(acc, 'dataJoin', args)
         blocks = rd.ref_join(left, right, e)
         acc.traces += 1
-        c2 = dict(case, variant=k, op=f'dataJoin(l, r, {args[2:]})', left_table=left, right_table=right)
+        c2 = dict(case, variant=k, op=label, left_table=left, right_table=right)
         if not ok:
             acc.violation(c2, canon_flat(rd.join_flatten(blocks, False)), res, 'dataJoin raised')
             continue
